@@ -653,7 +653,10 @@ def split_includes(rng, toks, max_files=4):
                 counter[0] += 1
                 sub = rng.choice(["", "", "sub/"])
                 name = "%sinc%d.jst" % (sub, counter[0])
-                files[prefix + name] = build(ts[i:i + ln], depth + 1, prefix + sub)
+                body = build(ts[i:i + ln], depth + 1, prefix + sub)
+                if rng.random() < 0.3:
+                    body = rng.choice([b"\n", b"\n\n", b"   \n", b"# head\n\n"]) + body + rng.choice([b"", b"\n\n"])
+                files[prefix + name] = body
                 out.append(b"INCLUDE " + (b'"' + name.encode() + b'"' if rng.random() < 0.3 else name.encode()) + b"\n")
                 i += ln
             else:
